@@ -1,7 +1,15 @@
 #!/bin/bash
-# Run once after a fresh restore, offline. Warms the Go build cache for the harness builds.
+# Run once after a fresh restore, offline. Warms the Go build cache for the harness builds
+# (plain and instrumented) and checks that /repo's own tests pass against the instrumented overlay
+# with inert hooks (the instrumentation preserves meaning).
 set -e
 export GOFLAGS=-mod=mod GOPROXY=off GOSUMDB=off GOTOOLCHAIN=local
-cd "$(dirname "$0")/engine"
+HERE="$(cd "$(dirname "$0")" && pwd)"
+cd "$HERE/engine"
 go build -o /dev/null ./cmd/vdriver
+SCR="$(mktemp -d /tmp/verif-setup-XXXXXX)"
+trap 'rm -rf "$SCR"' EXIT
+./build_instr.sh "$SCR"
+(cd /repo && go test -overlay "$SCR/ovl/overlay.json" -tags verif -vet=off -count=1 . >/dev/null) && echo "repo tests pass against the instrumented overlay"
+(cd /repo && go build -o /dev/null ./astisub)
 echo "setup ok"
